@@ -15,6 +15,8 @@
      * the rank of a file is latched from the pid of the first annotated event while it is -1
        (so a first pid of -1 does not latch), or preset by distributedInfo.rank;
      * pid is overwritten only if the rank is >= 0;
+     * an M/b/e/i event without an args dict gets a fresh one holding only the rank
+       (event.setdefault(the_args, {})["rank"] = rank_pid), like every other annotated event;
      * a trailing B without E ends the file silently (StopIteration inside build_complete_event);
      * zero test is math.isclose(dur, 0.0, abs_tol=1e-9), i.e. dur <= double(1e-9) once dur >= 0;
        it is applied to every event that is neither B/E nor exactly "M";
@@ -74,12 +76,11 @@ Definition annotate (use_attr : bool) (rank : Z) (e : ev) : res (ev * Z) :=
   match (if rank =? -1 then e_pid e else Some rank) with
   | None => Er KEYERR                                   (* event["pid"] *)
   | Some rk =>
-      match the_dict use_attr e with
-      | None => Er KEYERR                               (* event["args"] of an M/b/e/i event without args *)
-      | Some d =>
-          let e1 := with_dict use_attr e (Some rk, snd d) in
-          Ok (if 0 <=? rk then with_pid e1 (Some rk) else e1, rk)
-      end
+      (* event.setdefault(the_args, {})["rank"] = rank_pid : an M/b/e/i event without an args dict gets a
+         fresh one holding only the rank *)
+      let d := match the_dict use_attr e with Some d => d | None => (None, None) end in
+      let e1 := with_dict use_attr e (Some rk, snd d) in
+      Ok (if 0 <=? rk then with_pid e1 (Some rk) else e1, rk)
   end.
 
 Definition no_job_ph : list string := ["F"; "f"; "s"; "t"; "C"; "M"]%string.
@@ -324,8 +325,9 @@ Definition file_events (s : fstate) : list ev := fst (fst (fstream_st s)).
 Definition file_end (s : fstate) : fend := snd (fst (fstream_st s)).
 Definition file_final (s : fstate) : fstate := snd (fstream_st s).
 
-(* well-formed files of the property's domain as token lists: X slice, adjacent B/E pair, metadata,
-   other (counter) event *)
+(* well-formed files of the property's domain as token lists: X slice, adjacent B/E pair, metadata
+   (M; also the other annotated pass-through events: instant i, async b/e without dur), other
+   (counter) event *)
 Inductive token := TX (x : ev) | TBE (b e : ev) | TM (m : ev) | TO (o : ev).
 Definition tok_raw (t : token) : list ev :=
   match t with TX x => [x] | TBE b e => [b; e] | TM m => [m] | TO o => [o] end.
@@ -337,7 +339,8 @@ Definition wf_tok (t : token) : bool :=
   | TBE b e => ph_is b "B" && ph_is e "E" && is_some (e_pid b) && is_some (e_pid e) &&
                match e_name b, e_name e with Some n, Some n' => String.eqb n n' | _, _ => false end &&
                is_some (e_ts b) && is_some (e_ts e)
-  | TM m => ph_is m "M" && is_some (e_pid m) && is_some (e_args m)
+  | TM m => (ph_is m "M" || (ph_is m "i" || ph_is m "b" || ph_is m "e") && negb (is_some (e_dur m))) &&
+            is_some (e_pid m)                  (* with or without an args dict *)
   | TO o => ph_is o "C" && negb (is_some (e_dur o))
   end.
 (* what the property speaks about: identity, phase, name, ts, dur *)
